@@ -430,3 +430,90 @@ Theorem special_correct : forall o,
   display o (CInf false) = Out "inf"%string /\
   display o (CInf true) = Out "-inf"%string.
 Proof. intros. repeat split. Qed.
+
+(* ------------------------------------- the float text contains no separator *)
+Definition lit_char (c : ascii) : bool :=
+  match digit_of c with
+  | Some _ => true
+  | None => is_char c "-" || is_char c "+" || is_char c "." || is_char c "e"
+  end.
+
+Fixpoint all_chars (p : ascii -> bool) (s : string) : bool :=
+  match s with EmptyString => true | String c r => p c && all_chars p r end.
+
+Lemma all_chars_app : forall p a b, all_chars p (a ++ b) = all_chars p a && all_chars p b.
+Proof. induction a as [|c a IH]; intros b; simpl; [reflexivity|]. rewrite IH, andb_assoc. reflexivity. Qed.
+
+Lemma all_chars_digits : forall ds, wfd ds -> all_chars lit_char (show_digits ds) = true.
+Proof.
+  induction ds as [|d ds IH]; intros W; [reflexivity|]. inversion W; subst.
+  cbn [show_digits all_chars]. unfold lit_char at 1. rewrite digit_of_dchar by assumption.
+  rewrite IH by assumption. reflexivity.
+Qed.
+
+Lemma all_chars_exp : forall x, all_chars lit_char (show_exp true x) = true.
+Proof.
+  intros x. unfold show_exp. destruct x; cbn [append all_chars];
+    rewrite ?all_chars_digits by apply dec_digits_wf; reflexivity.
+Qed.
+
+Lemma all_chars_lit : forall l, wf_lit l -> all_chars lit_char (show_lit true l) = true.
+Proof.
+  intros [neg ip fr ex] (Wi & _ & Wf). cbn [l_int l_frac l_exp l_neg] in *. unfold show_lit.
+  cbn [l_int l_frac l_exp l_neg]. rewrite !all_chars_app.
+  rewrite all_chars_digits by assumption.
+  assert (H1 : all_chars lit_char (if neg then String "-" EmptyString else EmptyString) = true)
+    by (destruct neg; reflexivity).
+  assert (H2 : all_chars lit_char match fr with Some f => String "." (show_digits f) | None => EmptyString end = true).
+  { destruct fr as [f|]; [|reflexivity]. cbn [all_chars]. rewrite all_chars_digits by assumption. reflexivity. }
+  assert (H3 : all_chars lit_char match ex with Some x => String "e" (show_exp true x) | None => EmptyString end = true).
+  { destruct ex as [x|]; [|reflexivity]. cbn [all_chars]. rewrite all_chars_exp. reflexivity. }
+  rewrite H1, H2, H3. reflexivity.
+Qed.
+
+Lemma rm_noop : forall c0 sr s, lit_char c0 = false -> all_chars lit_char s = true ->
+  rm (String c0 sr) 0 s = s.
+Proof.
+  induction s as [|c s IH]; intros H0 H; [reflexivity|].
+  cbn [all_chars] in H. apply andb_true_iff in H. destruct H as [Hc Hs].
+  rewrite rm_other; [rewrite IH by assumption; reflexivity|].
+  intro E. subst. rewrite H0 in Hc. discriminate.
+Qed.
+
+(* separators that cannot be confused with the characters of a number *)
+Definition sep_lit_ok (sep : string) : Prop :=
+  match sep with EmptyString => True | String c _ => lit_char c = false end.
+
+Lemma float_no_sep : forall sep l, wf_lit l -> sep_lit_ok sep ->
+  remove_sep sep (show_lit true l) = show_lit true l.
+Proof.
+  intros sep l W H. unfold remove_sep. destruct sep as [|c0 sr]; [reflexivity|].
+  cbn [is_empty]. apply rm_noop; [exact H|apply all_chars_lit; assumption].
+Qed.
+
+Theorem float_correct_sep : forall o neg ds e, wfd ds -> ds <> [] ->
+  let limit := sig_limit (o_sig o) in
+  exists l,
+    display o (CFloat neg ds e) = Out (show_lit true l) /\
+    (sep_lit_ok (o_sep o) -> remove_sep (o_sep o) (show_lit true l) = show_lit true l) /\
+    read_number (show_lit true l) = Some (lit_dec l) /\
+    dQ (lit_dec l)
+    == dQ (signed neg (rounded ds limit),
+           (e - Z.of_nat (Nat.min (List.length ds) limit))%Z).
+Proof.
+  intros o neg ds e W NE limit.
+  destruct (round_sig_spec ds e limit W NE (sig_limit_pos _)) as (ds' & e' & k & Er & W' & NE' & Ee & Ev).
+  destruct (layout_spec neg ds' e' W' NE') as (l & El & Wl & Nl & Ql).
+  destruct (post_spec l Wl) as (Wp & Np & Qp).
+  destruct (float_correct o neg ds e W NE) as (l2 & D2 & R2 & Q2).
+  assert (El2 : show_lit true l2 = show_lit true (post l)).
+  { unfold display, dtoa in D2. fold limit in D2. rewrite Er, El in D2. inversion D2. reflexivity. }
+  exists (post l). split; [|split; [|split]].
+  - rewrite <- El2. exact D2.
+  - intros Hs. apply float_no_sep; assumption.
+  - apply read_show. assumption.
+  - rewrite Qp, Ql. rewrite <- Ev. rewrite dQ_zeros.
+    replace (e' - Z.of_nat (List.length ds'))%Z
+      with (e - Z.of_nat (Nat.min (List.length ds) limit) + Z.of_nat k)%Z by lia.
+    reflexivity.
+Qed.
